@@ -92,16 +92,21 @@ def run_one(job):
     new = src[:start] + newbody.encode() + src[end:]
     open(path, "wb").write(new)
     env = dict(os.environ, VERIF_REPO=wt, VERIF_OUT=os.path.join(OUTROOT, f"w{wid}"), VERIF_NO_CANARY="1")
-    prop = cfg["properties"][0]
-    r = subprocess.run([os.path.join(VERIF, "check"), prop, "--unit", cfg["unit"]], capture_output=True, text=True, env=env)
+    # a clause is reported under the properties it is attributed to: try each property of the unit until one reports
+    kind, out, prop = "survived", "", cfg["properties"][0]
+    for prop in cfg["properties"]:
+        r = subprocess.run([os.path.join(VERIF, "check"), prop, "--unit", cfg["unit"]], capture_output=True, text=True, env=env)
+        out = r.stdout
+        k = {0: "survived", 1: "reported", 2: "undecided"}.get(r.returncode, "error")
+        if k != "survived":
+            kind = k
+            break
     open(path, "wb").write(src)   # restore
-    out = r.stdout
-    kind = {0: "survived", 1: "reported", 2: "undecided"}.get(r.returncode, "error")
     why = ""
     if kind == "undecided":
         u = [l for l in out.splitlines() if l.startswith("UNDECIDED")]
         why = u[0][:260] if u else ""
-        if re.search(r"mismatched types|cannot find|expected .* found|borrow|E0\d\d\d|unused|cannot (move|assign)|no method|not found in this scope|type annotations|cannot be applied|unreachable|syntax|expected one of|unexpected", why) and "anchor" not in why and "lowering" not in why:
+        if re.search(r"non-exhaustive|isn't initialized|incompatible types|parse error|cannot subtract|is not supported|mismatched types|cannot find|expected .* found|borrow|E0\d\d\d|unused|cannot (move|assign)|no method|not found in this scope|type annotations|cannot be applied|unreachable|syntax|expected one of|unexpected", why) and "anchor" not in why and "lowering" not in why:
             kind = "does-not-compile"
     viol = [l.split("replay=")[0] for l in out.splitlines() if l.startswith("VIOLATION")]
     return {"unit": cfg["unit"], "prop": prop, "fn": fn, "file": file, "mutation": desc, "result": kind, "why": why, "n_violations": len(viol)}
